@@ -403,6 +403,13 @@ func c31Enabled(s *c31State, depth int) []string {
 		} else {
 			evs = append(evs, "set:"+id+":delta:+10.0.0.2")
 		}
+		// balanced delta (one member replaced by another: size unchanged), as when a pod IP changes
+		if cur["10.0.0.1"] && !cur["10.0.0.3"] {
+			evs = append(evs, "set:"+id+":swap:10.0.0.1>10.0.0.3")
+		}
+		if cur["10.0.0.3"] && !cur["10.0.0.1"] {
+			evs = append(evs, "set:"+id+":swap:10.0.0.3>10.0.0.1")
+		}
 		if !s.setReferenced(id) {
 			evs = append(evs, "set:"+id+":remove")
 		}
@@ -525,6 +532,11 @@ func c31Apply(s *c31State, e string) {
 				delete(s.sets[id], mem)
 				p.handleDataplane(&proto.IPSetDeltaUpdate{Id: id, RemovedMembers: []string{mem}})
 			}
+		case "swap":
+			ab := strings.Split(f[3], ">")
+			delete(s.sets[id], ab[0])
+			s.sets[id][ab[1]] = true
+			p.handleDataplane(&proto.IPSetDeltaUpdate{Id: id, AddedMembers: []string{ab[1]}, RemovedMembers: []string{ab[0]}})
 		case "remove":
 			delete(s.sets, id)
 			p.handleDataplane(&proto.IPSetRemove{Id: id})
